@@ -215,19 +215,26 @@ def run(ctx):
 def solved_level(ctx, c, c2, label, clause, fails):
     import pyPRISM
     out = []
+    guess = None
     for cc in (c, c2):
         s = systems.build(cc)
         with warnings.catch_warnings():
             warnings.simplefilter('ignore')
             try:
                 with np.errstate(all='ignore'):
-                    P = s.solve(method='krylov', options={'disp': False, 'maxiter': 400, 'fatol': 1e-10})
+                    # the reformulated system is solved FROM the transformed solution of the base system: the discretised
+                    # equations may have several roots and which one a solve from zero reaches depends on rounding
+                    # (benign/B_C01x); equivariance says the transformed solution is a root of the reformulated system
+                    P = s.solve(guess=guess, method='krylov', options={'disp': False, 'maxiter': 400, 'fatol': 1e-10})
             except Exception:
                 ctx.skip('solve raised (not judged)')
                 return False
         if not P.minimize_result.success:
             ctx.skip('solve did not converge (not judged)')
             return False
+        if guess is None:
+            n0, R0 = int(P.sys.domain.length), int(P.sys.rank)
+            guess = np.array(transform_x(label, np.array(P.minimize_result.x, dtype=float), n0, R0)[0], dtype=float).reshape(-1)
         with warnings.catch_warnings():
             warnings.simplefilter('ignore')
             with np.errstate(all='ignore'):
